@@ -255,6 +255,10 @@ def rule_drain_guard(ctx):
               and isinstance(n.ast.ops[0], ast.In) and isinstance(n.ast.left, ast.Name) and n.ast.left.id in tvars
               and isinstance(n.ast.comparators[0], ast.Name) and n.ast.comparators[0].id == "muted_partitions"]
         ok = bool(mt) and any(c.dominates(t, p) for t in mt) and _not_reachable_from_true(c, mt, p, [head])
+        if not ok:
+            # the same guard in any spelling (`not in` with the rest nested, De Morgan, ...): the fact holds on every path to the pop
+            from ..rulekit import must_facts
+            ok = any((tv, "not in", "muted_partitions") in must_facts(c)[p] for tv in tvars)
         ctx.ob(R, fi, p, ok, "pop reachable without the `tp in muted_partitions` test being false", text="muted-guard:" + _where(c, p))
         # muted_partitions must still be the parameter there
         rd = c.reaching_defs()
@@ -548,6 +552,20 @@ def rule_classify(ctx):
                     k = [n for n in p if n in ev]
                     skipped = [n for n in p if n.kind == "continue"]
                     ok_skip = bool(skipped) and all(_none_guarded(c, s) for s in skipped)
+                    if not ok_skip:
+                        # the skip written without `continue`: the path takes the `is None` arm of a test (no batch was sent for that
+                        # partition) and does nothing else
+                        seq = list(p) + ([head] if not p or p[-1] is not head else [])
+                        for i_, (a, b) in enumerate(zip(seq, seq[1:])):
+                            if a.kind == "test":
+                                x, xn = is_none_test(a.ast), is_none_test(a.ast, negate=True)
+                                lab = [l for m, l in a.succ if m is b]
+                                # (a back edge to the loop head is labelled `back`: it is the arm that is not the other label)
+                                others = {l for m, l in a.succ if m is not b and l != "exc"}
+                                took_t = "T" in lab or ("back" in lab and others == {"F"})
+                                took_f = "F" in lab or ("back" in lab and others == {"T"})
+                                if (x is not None and took_t) or (xn is not None and took_f):
+                                    ok_skip = not any(n.kind in ("call", "await") for n in seq[i_ + 1:])
                     good = len(k) == 1 or (len(k) == 0 and ok_skip)   # a `continue` after the single resolution is the guard-clause form
                     if not good:
                         ctx.ob(R, fi, la, False,
@@ -614,6 +632,31 @@ def rule_no_expire(ctx):
         ctx.ob(R, cf, node, ok, f"{cf.name}: batch expiry applies to idempotent/transactional producers too", text="expiry-guard")
 
 
+
+def rule_errno_unique(ctx, R):
+    """for_code() maps a reply's error code through `{x.errno: x for x in subclasses}`: two classes with one errno make the code resolve to
+    whichever is defined last, with that class's `retriable` flag -- every code a handler classifies must belong to one class."""
+    mod = ctx.repo.module("aiokafka.errors")
+    by = {}
+    n = 0
+    for st in mod.tree.body:
+        if isinstance(st, ast.ClassDef):
+            for b in st.body:
+                if isinstance(b, ast.Assign) and len(b.targets) == 1 and unparse(b.targets[0]) == "errno" and isinstance(const_value(b.value), int):
+                    by.setdefault(const_value(b.value), []).append((st.name, st.lineno))
+                    n += 1
+    ctx.anchor(n >= 60, f"error classes with an errno in aiokafka.errors: {n} < 60")
+    dup = {k: v for k, v in by.items() if len(v) > 1}
+    ctx.rep.ob(R, f"{mod.relpath}:{min(l for v in dup.values() for _n, l in v) if dup else 1} aiokafka.errors", "aiokafka.errors|errno-unique", not dup,
+               f"error codes declared by more than one class: { {k: [n_ for n_, _l in v] for k, v in sorted(dup.items())} } -- for_code() resolves such a code to the class "
+               "defined last, with that class's retriable flag (a retriable reply is failed, or a fatal one retried)")
+    tab = [st for st in mod.tree.body if isinstance(st, ast.Assign) and unparse(st.targets[0]) == "kafka_errors"]
+    ok = len(tab) == 1 and unparse(tab[0].value) == "{x.errno: x for x in _iter_subclasses(BrokerResponseError)}"
+    ff = ctx.fn("aiokafka.errors.for_code")
+    ok = ok and "kafka_errors.get(error_code, UnknownError)" in unparse(ff.node)
+    ctx.rep.ob(R, f"{mod.relpath}:{ff.node.lineno} aiokafka.errors.for_code", "aiokafka.errors.for_code|table", ok, "for_code is not the errno -> class table of all BrokerResponseError subclasses")
+
+
 def rule_retriable_table(ctx):
     R = "retriable-table"
     ctx.rep.rule(R, "the faults C01 names are classified retriable; _can_retry returns exactly error.retriable past the expiry guard; "
@@ -633,6 +676,7 @@ def rule_retriable_table(ctx):
             e = class_attr(ctx.repo, "aiokafka.errors", nm, "errno")
             ctx.rep.ob(R, f"{mod.relpath}:{ci[0].node.lineno} {nm}", f"{nm}|errno", e is not None and const_value(e) == errno[nm],
                        f"{nm}.errno is {unparse(e) if e is not None else None}, Kafka says {errno[nm]}")
+    rule_errno_unique(ctx, R)
     for nm in ("OutOfOrderSequenceNumber", "DuplicateSequenceNumber", "InvalidProducerEpoch", "ProducerFenced"):
         v = class_attr(ctx.repo, "aiokafka.errors", nm, "retriable")
         ctx.rep.ob(R, f"{mod.relpath} {nm}", f"{nm}|not-retriable", v is not None and const_value(v) is False,
